@@ -9,6 +9,8 @@
 //                                          BasicWorldBuilder.Finish, invertPoints on clockwise paths under
 //                                          areas); the dump must equal the one of the cores=1 build
 //   workload build-compact cores=K n=N     parallel compact.BuildInMemory + NewWorldFromData; same comparison
+//   workload parse g=G                     api.ParseExpression (goyacc parser, package-level state) from G goroutines,
+//                                          valid and invalid inputs, results compared with the sequential pass
 //   workload query-<world> g=G n=N q=Q     G goroutines run the Q queries (lookups by ID through the LRU cache,
 //                                          Polyline / Polygon / Feature of shared cached objects, searches,
 //                                          references, areas-by-point, traversal, EachFeature) in different
@@ -31,6 +33,7 @@ import (
 	"time"
 
 	"diagonal.works/b6"
+	"diagonal.works/b6/api"
 	"diagonal.works/b6/ingest"
 	"diagonal.works/b6/ingest/compact"
 	"github.com/golang/geo/s2"
@@ -300,7 +303,66 @@ func dumpAll(w b6.World, qs []query) []string {
 
 // ---- worker --------------------------------------------------------------------------------------
 
+var parseInputs = []string{
+	`find [#building] | map {b -> get b "building:levels"}`,
+	`add-tag /point/v/1 #amenity=cafe`,
+	`find (intersecting 19.4008, -99.1663)`,
+	`{"motorway": 36.0, "primary": 32.0}`,
+	`all-areas | filter | highlight`,
+	`find [#building=yes & [#shop=supermarket | #shop=convenience]]`,
+	`map (tag "name") (all-areas)`,
+	`add-tag /point/v/1`, `find [`, `{a -> }`, `1 2 3 |`, `pair 55.6, -2.8 /area/openstreetmap.org/way/1`, // some fail: the error path
+}
+
+func parseOne(e string) string {
+	ex, err := api.ParseExpression(e)
+	if err != nil {
+		return "err:" + err.Error()
+	}
+	if u, ok := api.UnparseExpression(ex); ok {
+		return u
+	}
+	return "parsed"
+}
+
+// parseWorkload: api.ParseExpression from G goroutines (the UI's EvaluateString path parses inside concurrent
+// HTTP requests); every result must equal the sequential one
+func parseWorkload(sp Spec) string {
+	var wg sync.WaitGroup
+	got := make([][]string, sp.G)
+	for g := 0; g < sp.G; g++ {
+		wg.Add(1)
+		go func(g int) {
+			defer wg.Done()
+			r := hx.NewRand(sp.Seed*17 + uint64(g))
+			for round := 0; round < 3; round++ {
+				for _, i := range r.Perm(len(parseInputs)) {
+					got[g] = append(got[g], fmt.Sprintf("%d\x00%s", i, hx.Recover(func() string { return parseOne(parseInputs[i]) })))
+				}
+			}
+		}(g)
+	}
+	wg.Wait()
+	want := make([]string, len(parseInputs))
+	for i, e := range parseInputs {
+		want[i] = fmt.Sprintf("%d\x00%s", i, hx.Recover(func() string { return parseOne(e) }))
+	}
+	for g := range got {
+		for _, a := range got[g] {
+			var i int
+			fmt.Sscanf(a, "%d", &i)
+			if a != want[i] {
+				return fmt.Sprintf("mismatch:parse_%d", i)
+			}
+		}
+	}
+	return "ok"
+}
+
 func runSpec(sp Spec) string {
+	if sp.Workload == "parse" {
+		return parseWorkload(sp)
+	}
 	fs := features(sp)
 	qs := queries(sp, fs)
 	switch sp.Workload {
@@ -426,6 +488,9 @@ func opText(sp Spec, nq int) string {
 	if strings.HasPrefix(sp.Workload, "build") {
 		return fmt.Sprintf("workload %s cores=%d n=%d cw=%d seed=%d", sp.Workload, sp.Cores, n, sp.CWEvery, sp.Seed)
 	}
+	if sp.Workload == "parse" {
+		return fmt.Sprintf("workload parse g=%d n=%d q=%d seed=%d", sp.G, len(parseInputs), 3*len(parseInputs), sp.Seed)
+	}
 	return fmt.Sprintf("workload %s g=%d n=%d q=%d seed=%d", sp.Workload, sp.G, n, nq, sp.Seed)
 }
 
@@ -446,7 +511,7 @@ func execute(c *hx.Ctx, sps []Spec) {
 			break
 		}
 		nq := 0
-		if !strings.HasPrefix(sps[i].Workload, "build") {
+		if !strings.HasPrefix(sps[i].Workload, "build") && sps[i].Workload != "parse" {
 			nq = len(queries(sps[i], features(sps[i])))
 		}
 		c.Op(opText(sps[i], nq), a)
@@ -507,6 +572,11 @@ func runCase(c *hx.Ctx) {
 		sps = append(sps, s)
 		c.Note(fmt.Sprintf("cores-or-g:%d", map[bool]int{true: s.Cores, false: s.G}[strings.HasPrefix(wl, "build")]))
 	}
+	if r.Chance(1, 3) {
+		s := sp
+		s.Workload, s.G = "parse", 2+r.Intn(7)
+		sps = append(sps, s)
+	}
 	execute(c, sps)
 	if sp.CWEvery > 0 && sp.Squares >= 2 {
 		c.NonTrivial()
@@ -534,6 +604,9 @@ func corpus(c *hx.Ctx) {
 		s.Cores, s.G = 8, 8
 		sps = append(sps, s)
 	}
+	ps := base
+	ps.Workload, ps.G = "parse", 8
+	sps = append(sps, ps)
 	execute(c, sps)
 	c.NonTrivial()
 }
